@@ -852,5 +852,15 @@ def r10_branch_displacement_byte(ctx: Ctx) -> None:
     r1_no_truncation(ctx)
 
 
+def r11_operand_value(ctx: Ctx) -> None:
+    """`followed by the operand value`: the operand expression has its conventional value -- operator precedence and associativity
+    (C06.R1/R2) and the bases / digit sets of its literals (C06.R4)"""
+    from .c06 import r1_precedence_order, r2_associativity, r4_literal_bases
+
+    r1_precedence_order(ctx)
+    r2_associativity(ctx)
+    r4_literal_bases(ctx)
+
+
 RULES = [r1_table_subset_of_isa, r2_supported_set_kept, r3_operand_packing, r4_width_selection, r5_shape_to_mode,
-         r6_rejection_discipline, r7_field_plumbing, r8_lexer_token_facts, r9_mnemonic_recognition, r10_branch_displacement_byte, rb_binding_agreement, rm_no_process_lifetime_results, ru_names_bound]
+         r6_rejection_discipline, r7_field_plumbing, r8_lexer_token_facts, r9_mnemonic_recognition, r10_branch_displacement_byte, r11_operand_value, rb_binding_agreement, rm_no_process_lifetime_results, ru_names_bound]
